@@ -1372,7 +1372,7 @@ fn main() {
                     run_case(&mut out, &mut wc, "corpus.F-C06a", &Case { server, ..plain.clone() });
                 }
             }
-            let rounds = if a.thorough { 8 } else { 2 };
+            let rounds = if a.thorough { 16 } else { 2 };
             for _ in 0..rounds {
                 c06_enc_cases(&mut out, &mut wc, &mut r, a.thorough);
                 c06_declared_cases(&mut out, &mut r, a.thorough);
